@@ -27,7 +27,7 @@ enum { P_COALESCED, P_RESTART, P_ATOMIC_MULTI, P_YIELD_REQUEUE_BEHIND, P_FAST_PA
        P_TIMERS_SAME_PASS, P_TIMER_TIE, P_TIMEOUT_IMMEDIATE, P_WRAP_0, P_WRAP_80, P_IDLE_PASS,
        P_KILL_TRUE, P_KILL_CURRENT, P_SELF_RUN, P_WAKE_NOW, P_WAKE_TIMER, P_WAKE_UNBOUNDED,
        P_SHIFT_CHECKED, P_TIMER_AND_YIELDER, P_ATOMIC_FROM_FIBRE, P_EXIT_WITH_TIMER, P_MODEL_FORKED,
-       P_WRAP_BASE_IN_C01 };
+       P_WRAP_BASE_IN_C01, P_MARATHON };
 static const char *const probe_names[] = {
 	"reasons_coalesced", "exited_fibre_restarted", "several_atomic_requests_drained_together",
 	"yielder_requeued_behind_others", "single_yielder_fast_path", "timer_fired",
@@ -37,7 +37,7 @@ static const char *const probe_names[] = {
 	"wakeup_is_now", "wakeup_is_timer", "wakeup_is_unbounded", "shift_invariance_compared",
 	"timer_expired_in_pass_that_requeued_a_yielder", "atomic_request_from_inside_fibre",
 	"exit_or_fail_with_timer_pending", "queued_fibre_called_fibre_timeout_model_forked",
-	"c01_history_on_wrap_placed_time_base", NULL };
+	"c01_history_on_wrap_placed_time_base", "marathon_of_300_to_131100_requests_and_passes", NULL };
 
 #define MAXF 10
 #define AQ_DEPTH 8
@@ -351,6 +351,8 @@ static struct {
 	bool started;			/* body entered at its first statement  */
 	uint32_t base;
 	bool flushing;
+	bool quiet;			/* inside a marathon: bodies just wait, no per-call events */
+	uint32_t marathon_at;		/* step at which a marathon is inserted (UINT32_MAX: none) */
 	uint32_t steps_done;
 } S;
 
@@ -394,6 +396,8 @@ static void classify_dispatch(int real, int model)
 /* one dispatch of fibre x: actions then the way it returns; real and model in lock step */
 static int body_actions(int x)
 {
+	if (S.quiet)
+		return FIBRE_STATE_WAITING;
 	bool unsatisfied = false;
 	uint32_t nact = S.flushing ? 0 : ch(4);
 	for (uint32_t a = 0; a < nact; a++) {
@@ -538,12 +542,15 @@ static int fibre_body(fibre_t *f)
 				 M.fresh[x] ? "start from its beginning" : "resume");
 		if (S.started && M.dispatches[x] > 0)
 			sim_probe(P_RESTART);
-		sim_ev("dispatch", x, S.started, 0);
-		xl(1000 + x * 2 + S.started);
+		if (!S.quiet) {
+			sim_ev("dispatch", x, S.started, 0);
+			xl(1000 + x * 2 + S.started);
+		}
 		/* cur_state is only read at the next pass, so it can be recorded after the actions */
 		want_ret[x] = body_actions(x);
 		apply_op(OP_DISPATCHED, x, want_ret[x], false, 0);
-		sim_ev("return", x, want_ret[x], 0);
+		if (!S.quiet)
+			sim_ev("return", x, want_ret[x], 0);
 		S.started = false;
 		if (want_ret[x] == FIBRE_STATE_YIELDED) {
 			PT_YIELD();
@@ -575,7 +582,7 @@ static void do_pass(uint32_t t)
 	uint32_t wake = fibre_scheduler_next(t);
 	S.in_pass = 0;
 	sim_check_sanitizer();
-	if (S.dispatched < 0)
+	if (S.dispatched < 0 && !S.quiet)
 		sim_ev("idle", 0, 0, 0), xl(999);
 	{
 		bool any = false;
@@ -595,8 +602,10 @@ static void do_pass(uint32_t t)
 		sim_fail("C01", "SELF", "after the pass fibre_self() names %s, the pass dispatched %s%d",
 			 self ? "a fibre" : "nothing", m < 0 ? "nothing " : "fibre ", m);
 	uint32_t mw = (uint32_t)apply_op(OP_WAKE, 0, 0, true, wake);
-	sim_ev("wake", (int32_t)(wake - t), 0, 0);
-	xl((int32_t)(wake - t));
+	if (!S.quiet) {
+		sim_ev("wake", (int32_t)(wake - t), 0, 0);
+		xl((int32_t)(wake - t));
+	}
 	if (wake != mw)
 		sim_fail("C03", "WAKEUP_VALUE",
 			 "fibre_scheduler_next(0x%08x) returned 0x%08x (t%+d), expected 0x%08x (t%+d): run queue %d, undrained atomic %d, yielded %d",
@@ -679,6 +688,36 @@ static void execute(uint32_t base, uint32_t nsteps)
 		if (!sub_replay) {
 			sim_seg();
 			S.steps_done++;
+		}
+		if (step == S.marathon_at) {
+			/* a very long-lived scheduler: tens of thousands of interrupt-context requests and
+			 * passes, every one in lock step with the reference, so that 16-bit counters,
+			 * tickets and cursors anywhere under the scheduler wrap.  Bodies just wait. */
+			static const uint32_t lens[] = { 300, 65530, 65540, 66000, 70000, 131100 };
+			uint32_t k = lens[ch(6)] + ch(8);
+			sim_ev("marathon", k, 0, 0);
+			sim_probe(P_MARATHON);
+			S.quiet = true;
+			for (uint32_t i = 0; i < k; i++) {
+				int y = i % nf;
+				bool hold = (i & 63) >= 56 && M.natomic < AQ_DEPTH - 1;	/* now and then let the queue fill */
+				sim_budget(2000000);
+				bool r = fibre_run_atomic(&tf[y]->fibre);
+				real_accepted_overflow = r;
+				bool m = apply_op(OP_ATOMIC, y, 0, true, r);
+				if (r != m)
+					sim_fail("C01", "ATOMIC_RET", "fibre_run_atomic returned %d with %d request(s) undrained (request %u of a long run)", r, M.natomic - (m ? 1 : 0), i);
+				if (!hold) {
+					t += i & 1;
+					sim_clock = t;
+					do_pass(t);
+					if (M.nrun > 0)
+						do_pass(t);
+				}
+			}
+			S.quiet = false;
+			sim_check_sanitizer();
+			sim_ev("marathon_end", M.nrun, M.natomic, 0);
 		}
 		uint32_t op = ch(10);
 		int x = ch(nf);
@@ -786,6 +825,8 @@ static void run(void)
 	uint32_t nsteps = 5 + sim_choose(56);
 	if (sim_chance(1, 16))
 		nsteps = 150 + sim_choose(250);	/* long-lived schedulers: counters and queue cursors wrap */
+	S.marathon_at = sim_chance(1, 4000) ? sim_choose(nsteps) : UINT32_MAX;
+	S.quiet = false;
 	S.queue_full_enabled = sim_chance(1, 4);
 	if (S.queue_full_enabled && sim_choose(2))
 		nf = 9 + sim_choose(MAXF - 8);	/* enough fibres for 8 distinct undrained requests and a ninth */
